@@ -131,6 +131,24 @@ BUILT = {
             'Reference matcher in mc/props/c13.py over text categories known by construction. Sets with two numeric-like alternatives '
             'are not generated (the statement does not order them). Fully unmatched statements are thinned to one instruction per group.',
             'DESIGN.md 3/C13'),
+    'C10': ('model_checking',
+            'exhaustive enumeration of macro definitions x invocations, differential pairs of real executions',
+            'For 6 operand patterns, every sequence of 1..3 (thorough 4) step templates (12-bit steps, relative-address steps, all '
+            'placeholder kinds, expressions around placeholders), as only variant and as second variant, x every invocation (literals, '
+            'backward/forward labels, label expressions, registers): the image of the program with the macro must equal the image of '
+            'the program with the invocation replaced by the substituted steps (two executions of the real assembler per case); '
+            'unfillable placeholders must be rejected.',
+            'Differential oracle; substitution done by the generator on its own structured operands; a label after the invocation '
+            'observes the macro size.',
+            'DESIGN.md 3/C10'),
+    'C19': ('fault_enumeration',
+            'single-fault enumeration at every applicable site of well-formed definitions + version grids',
+            'Every fault of a 14-entry catalogue at every applicable site of two generated definitions that use every section (first '
+            'sites of the 8 definitions shipped with the repository), the 512-point min_version grid and the 640-point #require grid; '
+            'faulty definitions must be rejected, base definitions (incl. the shipped ones) must load, version gates must follow '
+            'version ordering.',
+            'Version ordering computed by the check itself (integer triple, pre-release rank).',
+            'DESIGN.md 3/C19'),
 }
 
 NOT_BUILT_REASON = 'check not built yet (work in progress in this session); no claim made'
